@@ -8,7 +8,7 @@
   * `iterRange`     — eager fiber: positions `start_pos ..`, each yield carries its storage
                       position (= the object yielded is the fiber's own payload; the position is
                       also what `setSavedPos(i + j)` records).
-  * `pyRange`       — Python's `range(start, end, step)` for `step >= 1`.
+  * `pyRange` / `pyRangeDown` / `pyRangeI` — Python's `range(start, end, step)`, `step ≠ 0`.
   * `shapeIter` / `shapeRefLoop` — `iterRangeShape` (`getPayload`, nothing inserted) and
                       `iterRangeShapeRef` (`getPayloadRef`, default inserted where absent).
   * `coShape` / `coShapeRefLoop` — the dense co-iterators (tuple of payloads per coordinate).
@@ -102,6 +102,17 @@ def pyRange (s e : Int) (k : Nat) : List Int :=
 termination_by (e - s).toNat
 decreasing_by omega
 
+/-- Python's `range(s, e, -k)` for a positive `k`: descending -/
+def pyRangeDown (s e : Int) (k : Nat) : List Int :=
+  if _h : e < s ∧ 0 < k then s :: pyRangeDown (s - k) e k else []
+termination_by (s - e).toNat
+decreasing_by omega
+
+/-- `range(s, e, k)` for any non-zero integer step (`k = 0` raises `ValueError` in Python;
+    the empty list here, and such cases are kept out of the model) -/
+def pyRangeI (s e k : Int) : List Int :=
+  if 0 < k then pyRange s e k.toNat else pyRangeDown s e (-k).toNat
+
 inductive Fmt | C | U
   deriving DecidableEq, Repr
 
@@ -134,17 +145,27 @@ def getActive (cfg : Cfg) (f : Fib Int π) : Int × Int :=
       | some s => if s = 0 then estShape f else s
       | none => estShape f)
 
+/-- the extent of an owned fiber's rank when it was not declared: `Rank.append` keeps the
+    maximum of the (non-zero) estimates `coords[-1] + 1` of the fibers appended; `none` (no
+    information: each fiber falls back to its own estimate) when every fiber was empty -/
+def rankExtent (sibs : List (Fib Int π)) : Option Int :=
+  sibs.foldl (fun acc g =>
+    let n := estShape g
+    if n = 0 then acc else match acc with
+      | none => some n
+      | some o => some (if o < n then n else o)) none
+
 /-- the ranges of the wrappers: `iterRangeShape(s, e, k)` itself, `iterShape` = `(0, getShape)`,
     `iterActiveShape` = `getActive()`; the same for the `…Ref` and the `coiter…` forms (which read
     shape / active range from the first fiber) -/
 inductive Wrap
-  | range (s e : Int) (k : Nat)
+  | range (s e : Int) (k : Int)
   | shape
   | active
 
 def wrapCoords (w : Wrap) (cfg : Cfg) (f : Fib Int π) : List Int :=
   match w with
-  | .range s e k => pyRange s e k
+  | .range s e k => pyRangeI s e k
   | .shape => pyRange 0 (getShape cfg f) 1
   | .active => pyRange (getActive cfg f).1 (getActive cfg f).2 1
 
@@ -267,6 +288,38 @@ def projStartOk (k m : Int) (iv : Option (Int × Int)) (sp : Option Nat) (f : Fi
     in reversed storage order -/
 def revInner (emp : π → Bool) (f : Fib Int π) : Fib Int (Option Nat × π) :=
   stored (rangeLoop (fun ip => emp ip.2) none none (withPos f).reverse)
+
+/-- the active range `project` gives its result: the interval if there is one, else the image
+    of the source's active range (`trans(a0)`, `trans(a1 - 1)`, ordered, end exclusive) -/
+def projActive (cfg : Cfg) (k m : Int) (iv : Option (Int × Int)) (f : Fib Int π) : Int × Int :=
+  match iv with
+  | some i => i
+  | none =>
+    let a := getActive cfg f
+    let st := k * a.1 + m
+    let en := k * (a.2 - 1) + m
+    (if st < en then st else en, (if st < en then en else st) + 1)
+
+/-- the active range of the lazy result of the dense co-iterators: `(start, end)` as passed -/
+def wrapActive (w : Wrap) (cfg : Cfg) (f : Fib Int π) : Int × Int :=
+  match w with
+  | .range s e _ => (s, e)
+  | .shape => (0, getShape cfg f)
+  | .active => getActive cfg f
+
+/-- `project` applied to a LAZY fiber presenting `src` (the result of an earlier project / prune):
+    default iteration of a lazy fiber is occupancy iteration; an order-reversing transform is
+    asserted out (`assert not self.isLazy()`), and so is a start position -/
+def projectOfLazy {ρ : Type} (emp : ρ → Bool) (k m : Int) (iv : Option (Int × Int)) (sp : Option Nat)
+    (src : Fib Int ρ) : Except Err (Fib Int ρ) :=
+  if decide (k * 0 + m > k * 1 + m) || sp.isSome then .error .assertion
+  else .ok (ivLoop iv (transF k m (rangeLoop emp none none src)))
+
+/-- `prune` applied to a lazy fiber presenting `src` -/
+def pruneOfLazy {ρ : Type} (emp : ρ → Bool) (pred : Nat → Int → ρ → Bool) (sp : Option Nat)
+    (src : Fib Int ρ) : Except Err (Fib Int ρ) :=
+  if sp.isSome then .error .assertion
+  else .ok ((((rangeLoop emp none none src).zipIdx).filter (fun x => pred x.2 x.1.1 x.1.2)).map (·.1))
 
 /-- a traversal of a lazy fiber: `iterRange(os, oe)` (plain `__iter__`: no bounds) runs the range
     loop over what a fresh instance of the fiber's iterator class delivers; a lazy fiber has
